@@ -90,7 +90,9 @@ func vc_getValuesFromRow_requires(tc *tableCache, rs *replication.Rows, rowIndex
 		specImageOK(tc.tableMap, &rs.DataColumns, &rs.Rows[rowIndex].NullColumns, rs.Rows[rowIndex].Data)
 }
 
-func vc_hook_entry_getValuesFromRow(tc *tableCache, rs *replication.Rows, rowIndex int) { vcColsOK = true }
+func vc_hook_entry_getValuesFromRow(tc *tableCache, rs *replication.Rows, rowIndex int) {
+	vcColsOK = true
+}
 
 // end of an iteration (the loop counter has been incremented already): the column just appended, index c-1, is checked
 func vc_hook_loopstep_getValuesFromRow_1(c int, values *RowData, tc *tableCache, rs *replication.Rows, rowIndex int) {
@@ -138,7 +140,9 @@ func vc_getIdentifiesFromRow_requires(tc *tableCache, rs *replication.Rows, rowI
 		specImageOK(tc.tableMap, &rs.IdentifyColumns, &rs.Rows[rowIndex].NullIdentifyColumns, rs.Rows[rowIndex].Identify)
 }
 
-func vc_hook_entry_getIdentifiesFromRow(tc *tableCache, rs *replication.Rows, rowIndex int) { vcColsOK = true }
+func vc_hook_entry_getIdentifiesFromRow(tc *tableCache, rs *replication.Rows, rowIndex int) {
+	vcColsOK = true
+}
 
 func vc_hook_loopstep_getIdentifiesFromRow_1(c int, identifies *RowData, tc *tableCache, rs *replication.Rows, rowIndex int) {
 	vcColsOK = vcColsOK && c >= 1 && len(identifies.Columns) == c &&
